@@ -413,14 +413,24 @@ class FileStore(Store):
         metadata["fileinfo"]["filesystem_path"] = str(self.path_for_key(key).resolve())
         return Metadata(metadata).as_dict()
 
+    def check_key(self, key, allow_root=True):
+        """Refuse keys that would address anything outside the store directory."""
+        parts = [part for part in key.split("/") if part not in ("", ".")]
+        if key.startswith("/") or ".." in parts or not (parts or allow_root):
+            raise KeyNotSupportedStoreException(key=key, store=self)
+
     def path_for_key(self, key):
         if key in (None, ""):
             return self.path
+        self.check_key(key)
         p = self.path / key
         assert p.name != self.METADATA
         return p
 
     def metadata_path_for_key(self, key):
+        if key is None:
+            key = ""
+        self.check_key(key, allow_root=False)
         p = self.path / key
         assert p.name != self.METADATA
         return p.parent / self.METADATA / (p.name + ".json")
